@@ -20,9 +20,16 @@ _work = None
 def workdir():
     global _work
     if _work is None:
-        _work = tempfile.mkdtemp(prefix="verif-")
+        # scratch directories of runs that were killed (no atexit) are removed by the next run: the name carries the pid
+        for d in os.listdir(tempfile.gettempdir()):
+            m = re.match(r"verif-(\d+)-", d)
+            if m and not os.path.exists("/proc/%s" % m.group(1)):
+                shutil.rmtree(os.path.join(tempfile.gettempdir(), d), ignore_errors=True)
+        _work = tempfile.mkdtemp(prefix="verif-%d-" % os.getpid())
         if not os.environ.get("VERIF_KEEP"):
             atexit.register(shutil.rmtree, _work, True)
+        # generated packages are unique per run: they are compiled with a private build cache that disappears with the run
+        ENV["GOCACHE"] = os.path.join(_work, "gocache")
     return _work
 
 
@@ -49,7 +56,9 @@ def build_pigeon(tags=None):
     if tags:
         cmd += ["-tags", tags]
     cmd += ["."]
-    sh(cmd, cwd=REPO, timeout=900)
+    env = dict(ENV)
+    env.pop("GOCACHE", None)
+    sh(cmd, cwd=REPO, timeout=900, env=env)
     _pigeon = (key, out)
     return out
 
@@ -171,7 +180,9 @@ def run_tlc(module, cfg_text, files, workers=1, timeout=3600, extra=(), heap="8g
             os.symlink(os.path.abspath(src), os.path.join(d, name))
     with open(os.path.join(d, module + ".cfg"), "w") as f:
         f.write(cfg_text)
-    cmd = ["java", "-XX:+UseParallelGC", "-Xss512m", "-Xmx" + heap, "-cp", TLA_CP, "tlc2.TLC",
+    jtmp = os.path.join(d, "jtmp")          # TLC/SANY unpack their standard modules into java.io.tmpdir on every run
+    os.makedirs(jtmp, exist_ok=True)
+    cmd = ["java", "-XX:+UseParallelGC", "-Xss512m", "-Xmx" + heap, "-Djava.io.tmpdir=" + jtmp, "-cp", TLA_CP, "tlc2.TLC",
            "-workers", str(workers), "-metadir", os.path.join(d, "meta"), "-config", module + ".cfg"]
     if simulate:
         cmd += ["-simulate", simulate]
@@ -183,6 +194,8 @@ def run_tlc(module, cfg_text, files, workers=1, timeout=3600, extra=(), heap="8g
         raise Inconclusive("TLC timed out on " + module)
     out = p.stdout.decode(errors="replace")
     res = dict(rc=p.returncode, out=out, wall=time.time() - t0, dir=d)
+    if not os.environ.get("VERIF_KEEP"):
+        shutil.rmtree(d, ignore_errors=True)
     m = re.search(r"(\d+) states generated, (\d+) distinct states found", out)
     if m:
         res["generated"], res["distinct"] = int(m.group(1)), int(m.group(2))
